@@ -48,25 +48,26 @@ Definition inventory_sites : nat * nat * nat * nat * nat :=
    nested references must repeat one): pilota-build breaks it with Box (BoxedPlugin), a heap allocation. *)
 (* [kb] = the build retains unknown fields (keep_unknown_fields): a struct / union compiled with retention carries a
    LinkedBytes (`_unknown_fields` member, `_UnknownFields` variant), which needs Drop whatever the declared fields are *)
-Fixpoint owns_heap_n (kb : bool) (S : schema) (fuel : nat) (t : ty) {struct fuel} : bool :=
+Fixpoint owns_heap_n (kb : bool) (A : list nat) (S : schema) (fuel : nat) (t : ty) {struct fuel} : bool :=
   match fuel with
   | O => true
   | Datatypes.S f =>
       match t with
       | TyString | TyBinary | TyList _ | TySet _ | TyMap _ _ => true
       | TyRef n =>
+          existsb (Nat.eqb n) A ||          (* an Arc box: a heap allocation whatever it wraps *)
           match lookup S n with
-          | Some (DStruct fs keep _) => (kb && keep) || existsb (fun fd => owns_heap_n kb S f (f_ty fd)) fs
-          | Some (DUnion vs _ keep) => (kb && keep) || existsb (fun q => owns_heap_n kb S f (snd q)) vs
-          | Some (DTypedef t') => owns_heap_n kb S f t'
+          | Some (DStruct fs keep _) => (kb && keep) || existsb (fun fd => owns_heap_n kb A S f (f_ty fd)) fs
+          | Some (DUnion vs _ keep) => (kb && keep) || existsb (fun q => owns_heap_n kb A S f (snd q)) vs
+          | Some (DTypedef t') => owns_heap_n kb A S f t'
           | Some (DEnum _) => false
           | None => false
           end
       | _ => false
       end
   end.
-Definition owns_heap (S : schema) (t : ty) : bool := owns_heap_n false S (Datatypes.S (length S)) t.
-Definition owns_heap_keep (S : schema) (t : ty) : bool := owns_heap_n true S (Datatypes.S (length S)) t.
+Definition owns_heap (A : list nat) (S : schema) (t : ty) : bool := owns_heap_n false A S (Datatypes.S (length S)) t.
+Definition owns_heap_keep (A : list nat) (S : schema) (t : ty) : bool := owns_heap_n true A S (Datatypes.S (length S)) t.
 
 (* value level (for the correspondence run only; no theorem mentions it): does THIS value hold an allocation / a
    reference into the input buffer FOR SURE, whatever representation the IDL annotations chose?
@@ -225,7 +226,7 @@ Section OwnLoops.
     end.
 End OwnLoops.
 
-Fixpoint own_decode (md : dmode) (S : schema) (p : pk) (fuel : nat) (t : ty) (s : rst) {struct fuel}
+Fixpoint own_decode (md : dmode) (A : list nat) (S : schema) (p : pk) (fuel : nat) (t : ty) (s : rst) {struct fuel}
   : own (gval * rst) :=
   match fuel with
   | O => lift (Err EOutOfFuel)
@@ -245,28 +246,28 @@ Fixpoint own_decode (md : dmode) (S : schema) (p : pk) (fuel : nat) (t : ty) (s 
       | TyList et =>
           (* the raw-pointer arm is emitted for `!helper.is_async`; it matters when the element type needs Drop *)
           let+ (h, s) := lift (m_coll_begin md p s) in
-          let+ (l, s) := own_elems (own_decode md S p f) (is_sync md && owns_heap S et) (Datatypes.S f) et (snd h) s [] in
+          let+ (l, s) := own_elems (own_decode md A S p f) (is_sync md && owns_heap A S et) (Datatypes.S f) et (snd h) s [] in
           lift (Ok (GList l, s))
       | TySet et =>
           let+ (h, s) := lift (m_coll_begin md p s) in
-          let+ (l, s) := own_elems (own_decode md S p f) false (Datatypes.S f) et (snd h) s [] in
+          let+ (l, s) := own_elems (own_decode md A S p f) false (Datatypes.S f) et (snd h) s [] in
           lift (Ok (GSet l, s))
       | TyMap kt vt =>
           let+ (h, s) := lift (m_map_begin md p s) in
-          let+ (l, s) := own_pairs (own_decode md S p f) (Datatypes.S f) kt vt (snd h) s [] in
+          let+ (l, s) := own_pairs (own_decode md A S p f) (Datatypes.S f) kt vt (snd h) s [] in
           lift (Ok (GMap l, s))
       | TyRef n =>
           match lookup S n with
           | Some (DEnum _) => lift (let* (z, s) := m_i32 md p s in Ok (GEnum z, s))
           | Some (DStruct fs _ _) =>
               let+ (_, s) := lift (m_struct_begin md p s) in
-              let+ (vars, s) := own_fields md S p f (own_decode md S p f) (Datatypes.S f) fs (map init_var fs) s in
+              let+ (vars, s) := own_fields md S p f (own_decode md A S p f) (Datatypes.S f) fs (map init_var fs) s in
               let+ (_, s) := lift (m_struct_end md p s) in
               let+ out := lift (finish_fields fs vars) in
               lift (Ok (GStruct out [], s))
           | Some (DUnion vs void_ok _) =>
               let+ (_, s) := lift (m_struct_begin md p s) in
-              let+ (ret, s) := own_variants md S p f (own_decode md S p f) (Datatypes.S f) vs None s in
+              let+ (ret, s) := own_variants md S p f (own_decode md A S p f) (Datatypes.S f) vs None s in
               let+ (_, s) := lift (m_struct_end md p s) in
               lift (match ret with
                     | Some (id, x) => Ok (GUnion id x, s)
@@ -354,7 +355,7 @@ Section OwnKeepLoops.
     end.
 End OwnKeepLoops.
 
-Fixpoint own_decode_keep (S : schema) (p : pk) (fuel : nat) (t : ty) (s : rst) {struct fuel} : own (gval * rst) :=
+Fixpoint own_decode_keep (A : list nat) (S : schema) (p : pk) (fuel : nat) (t : ty) (s : rst) {struct fuel} : own (gval * rst) :=
   match fuel with
   | O => lift (Err EOutOfFuel)
   | Datatypes.S f =>
@@ -372,35 +373,35 @@ Fixpoint own_decode_keep (S : schema) (p : pk) (fuel : nat) (t : ty) (s : rst) {
                 let* (_, s) := r_struct_end p s in Ok (GVoid, s))
       | TyList et =>
           let+ (h, s) := lift (r_coll_begin p s) in
-          let+ (l, s) := own_elems (own_decode_keep S p f) (owns_heap_keep S et) (Datatypes.S f) et (snd h) s [] in
+          let+ (l, s) := own_elems (own_decode_keep A S p f) (owns_heap_keep A S et) (Datatypes.S f) et (snd h) s [] in
           lift (Ok (GList l, s))
       | TySet et =>
           let+ (h, s) := lift (r_coll_begin p s) in
-          let+ (l, s) := own_elems (own_decode_keep S p f) false (Datatypes.S f) et (snd h) s [] in
+          let+ (l, s) := own_elems (own_decode_keep A S p f) false (Datatypes.S f) et (snd h) s [] in
           lift (Ok (GSet l, s))
       | TyMap kt vt =>
           let+ (h, s) := lift (r_map_begin p s) in
-          let+ (l, s) := own_pairs (own_decode_keep S p f) (Datatypes.S f) kt vt (snd h) s [] in
+          let+ (l, s) := own_pairs (own_decode_keep A S p f) (Datatypes.S f) kt vt (snd h) s [] in
           lift (Ok (GMap l, s))
       | TyRef n =>
           match lookup S n with
           | Some (DEnum _) => lift (let* (z, s) := r_i32 p s in Ok (GEnum z, s))
           | Some (DStruct fs true is_arg) =>
               let+ (_, s) := lift (r_struct_begin p s) in
-              let+ (r, s) := own_fields_keep S p f (own_decode_keep S p f) (Datatypes.S f) fs is_arg (map init_var fs)
+              let+ (r, s) := own_fields_keep S p f (own_decode_keep A S p f) (Datatypes.S f) fs is_arg (map init_var fs)
                                              (Z.of_nat (length fs)) [] s in
               let+ (_, s) := lift (r_struct_end p s) in
               let+ out := lift (finish_fields fs (fst r)) in
               lift (Ok (GStruct out (snd r), s))
           | Some (DStruct fs false _) =>
               let+ (_, s) := lift (r_struct_begin p s) in
-              let+ (vars, s) := own_fields MSync S p f (own_decode_keep S p f) (Datatypes.S f) fs (map init_var fs) s in
+              let+ (vars, s) := own_fields MSync S p f (own_decode_keep A S p f) (Datatypes.S f) fs (map init_var fs) s in
               let+ (_, s) := lift (r_struct_end p s) in
               let+ out := lift (finish_fields fs vars) in
               lift (Ok (GStruct out [], s))
           | Some (DUnion vs void_ok true) =>
               let+ (_, s) := lift (r_struct_begin p s) in
-              let+ (ret, s) := own_variants_keep S p f (own_decode_keep S p f) (Datatypes.S f) vs UNone s in
+              let+ (ret, s) := own_variants_keep S p f (own_decode_keep A S p f) (Datatypes.S f) vs UNone s in
               let+ (_, s) := lift (r_struct_end p s) in
               lift (match ret with
                     | UKnown id x => Ok (GUnion id x, s)
@@ -412,7 +413,7 @@ Fixpoint own_decode_keep (S : schema) (p : pk) (fuel : nat) (t : ty) (s : rst) {
                     end)
           | Some (DUnion vs void_ok false) =>
               let+ (_, s) := lift (r_struct_begin p s) in
-              let+ (ret, s) := own_variants MSync S p f (own_decode_keep S p f) (Datatypes.S f) vs None s in
+              let+ (ret, s) := own_variants MSync S p f (own_decode_keep A S p f) (Datatypes.S f) vs None s in
               let+ (_, s) := lift (r_struct_end p s) in
               lift (match ret with
                     | Some (id, x) => Ok (GUnion id x, s)
@@ -427,16 +428,16 @@ Fixpoint own_decode_keep (S : schema) (p : pk) (fuel : nat) (t : ty) (s : rst) {
       end
   end.
 
-Definition own_decode_keep_top (S : schema) (p : pk) (t : ty) (l : list byte)
+Definition own_decode_keep_top (A : list nat) (S : schema) (p : pk) (t : ty) (l : list byte)
   : res (gval * list byte) * list gval :=
-  let r := own_decode_keep S p (length l + 80) t (mkS l r0) in
+  let r := own_decode_keep A S p (length l + 80) t (mkS l r0) in
   ((let* (v, s) := fst r in Ok (v, rbuf s)), snd r).
 
 (* top-level entry (fresh protocol object over the bytes): outcome as gen_decode_top / gen_decode_async_top, and
    the values that are still alive after the error has been dropped *)
-Definition own_decode_top (md : dmode) (S : schema) (p : pk) (t : ty) (l : list byte)
+Definition own_decode_top (md : dmode) (A : list nat) (S : schema) (p : pk) (t : ty) (l : list byte)
   : res (gval * list byte) * list gval :=
-  let r := own_decode md S p (length l + 80) t (mkS l r0) in
+  let r := own_decode md A S p (length l + 80) t (mkS l r0) in
   ((let* (v, s) := fst r in Ok (v, rbuf s)), snd r).
 
 (* ---------- the class of finding F-19a, on the types a decoder can visit ---------- *)
@@ -451,28 +452,28 @@ Inductive reach (S : schema) (t : ty) : ty -> Prop :=
 | reach_variant n vs vo kp q : reach S t (TyRef n) -> lookup S n = Some (DUnion vs vo kp) -> In q vs -> reach S t (snd q).
 
 (* no list whose element type needs Drop is reachable from [t] *)
-Definition no_heap_list (S : schema) (t : ty) : Prop :=
-  forall et, reach S t (TyList et) -> owns_heap S et = false.
+Definition no_heap_list (A : list nat) (S : schema) (t : ty) : Prop :=
+  forall et, reach S t (TyList et) -> owns_heap A S et = false.
 
-Definition no_heap_list_keep (S : schema) (t : ty) : Prop :=
-  forall et, reach S t (TyList et) -> owns_heap_keep S et = false.
+Definition no_heap_list_keep (A : list nat) (S : schema) (t : ty) : Prop :=
+  forall et, reach S t (TyList et) -> owns_heap_keep A S et = false.
 
 (* a decidable sufficient condition: no such list occurs anywhere in [t] or in the schema *)
-Fixpoint nhl_ty (S : schema) (t : ty) : bool :=
+Fixpoint nhl_ty (A : list nat) (S : schema) (t : ty) : bool :=
   match t with
-  | TyList et => negb (owns_heap S et) && nhl_ty S et
-  | TySet et => nhl_ty S et
-  | TyMap a b => nhl_ty S a && nhl_ty S b
+  | TyList et => negb (owns_heap A S et) && nhl_ty A S et
+  | TySet et => nhl_ty A S et
+  | TyMap a b => nhl_ty A S a && nhl_ty A S b
   | _ => true
   end.
-Definition nhl_decl (S : schema) (d : decl) : bool :=
+Definition nhl_decl (A : list nat) (S : schema) (d : decl) : bool :=
   match d with
-  | DStruct fs _ _ => forallb (fun f => nhl_ty S (f_ty f)) fs
-  | DUnion vs _ _ => forallb (fun q => nhl_ty S (snd q)) vs
-  | DTypedef t => nhl_ty S t
+  | DStruct fs _ _ => forallb (fun f => nhl_ty A S (f_ty f)) fs
+  | DUnion vs _ _ => forallb (fun q => nhl_ty A S (snd q)) vs
+  | DTypedef t => nhl_ty A S t
   | DEnum _ => true
   end.
-Definition no_heap_list_b (S : schema) (t : ty) : bool := nhl_ty S t && forallb (nhl_decl S) S.
+Definition no_heap_list_b (A : list nat) (S : schema) (t : ty) : bool := nhl_ty A S t && forallb (nhl_decl A S) S.
 
 (* elements decoded one after the other by [rec], from state [s] to state [s'] *)
 Inductive decodes_seq (rec : ty -> rst -> res (gval * rst)) (et : ty) : rst -> list gval -> rst -> Prop :=
@@ -534,12 +535,12 @@ Definition global_retained (hs : list hold) : list hold :=
 (* the body: a generated type, or the runtime's own ApplicationException { 1: string message, 2: i32 type } *)
 Inductive body := BType (t : ty) | BAppEx.
 
-Definition own_body (md : dmode) (kb : bool) (S : schema) (p : pk) (fuel : nat) (b : body) (s : rst) : own (gval * rst) :=
+Definition own_body (md : dmode) (kb : bool) (A : list nat) (S : schema) (p : pk) (fuel : nat) (b : body) (s : rst) : own (gval * rst) :=
   match b with
   | BType t =>
       match md, kb with
-      | MSync, true => own_decode_keep S p fuel t s       (* sync templates of a keep_unknown_fields build *)
-      | _, _ => own_decode md S p fuel t s
+      | MSync, true => own_decode_keep A S p fuel t s       (* sync templates of a keep_unknown_fields build *)
+      | _, _ => own_decode md A S p fuel t s
       end
   | BAppEx =>
       (* hand-written safe code: `message` is an owned local *)
@@ -555,12 +556,12 @@ Record msg_out := mkMsgOut {
   mo_retained : list hold         (* what objects that outlive the call still hold after everything was dropped *)
 }.
 
-Definition own_message (md : dmode) (kb : bool) (S : schema) (p : pk) (fuel : nat) (b : body) (s : rst) : msg_out :=
+Definition own_message (md : dmode) (kb : bool) (A : list nat) (S : schema) (p : pk) (fuel : nat) (b : body) (s : rst) : msg_out :=
   match m_message_begin md p s with
   | Ok (id, s1) =>
       (* TMessageIdentifier::new(name, ..) is the last thing read_message_begin does: from here on the name exists *)
       let hs := name_holds md (m_name id) in
-      let r := own_body md kb S p fuel b s1 in
+      let r := own_body md kb A S p fuel b s1 in
       match fst r with
       | Ok (v, s2) => mkMsgOut (Ok (id, v, s2)) 2 (snd r) hs (global_retained hs)
       | Err e => mkMsgOut (Err e) 1 (snd r) hs (global_retained hs)
@@ -571,13 +572,13 @@ Definition own_message (md : dmode) (kb : bool) (S : schema) (p : pk) (fuel : na
   end.
 
 (* the class outside which the body decoder leaks nothing (F-19a), per template instance *)
-Definition body_no_heap_list (md : dmode) (kb : bool) (S : schema) (b : body) : Prop :=
+Definition body_no_heap_list (md : dmode) (kb : bool) (A : list nat) (S : schema) (b : body) : Prop :=
   match b with
   | BAppEx => True
   | BType t => match md, kb with
                | MAsync, _ => True
-               | MSync, false => no_heap_list S t
-               | MSync, true => no_heap_list_keep S t
+               | MSync, false => no_heap_list A S t
+               | MSync, true => no_heap_list_keep A S t
                end
   end.
 
@@ -599,5 +600,5 @@ Fixpoint bytes_val (v : gval) : bool :=
   end.
 
 (* entry point of the runner: fresh protocol object over the bytes *)
-Definition own_message_top (md : dmode) (kb : bool) (S : schema) (p : pk) (b : body) (l : list byte) : msg_out :=
-  own_message md kb S p (length l + 80) b (mkS l r0).
+Definition own_message_top (md : dmode) (kb : bool) (A : list nat) (S : schema) (p : pk) (b : body) (l : list byte) : msg_out :=
+  own_message md kb A S p (length l + 80) b (mkS l r0).
